@@ -40,6 +40,7 @@ pub struct Local {
     refun_ok: u64,
     refun_err: u64,
     custom: u64,
+    long_names: u64,
 }
 
 /// the reference unescaper
@@ -192,6 +193,22 @@ pub fn check_string(s: &str, loc: &mut Local) -> Result<(), String> {
             ))
         }
     }
+    // (d) a resolver that has an answer for every name: character references are still the library's
+    // business (the resolver is for named entities), everything else becomes the answer
+    let real = unescape_with(s, |_| Some("T"));
+    let model = refun(s, &|_| Some("T".to_string()));
+    match (&real, &model) {
+        (Ok(r), Ok(m)) if r.as_ref() == m.as_str() => {}
+        (Err(_), Err(())) => {}
+        _ => {
+            return Err(format!(
+                "unescape_with({:?}, resolver answering \"T\" for every name) = {:?} but the reference gives {:?}",
+                s,
+                real.as_ref().map(|c| c.as_ref().to_string()).map_err(|e| e.to_string()),
+                model
+            ))
+        }
+    }
     Ok(())
 }
 
@@ -338,6 +355,23 @@ fn run(ctx: &mut Ctx) {
         }
         ctx.exhaustive(&format!("all {} sequences of <= {} symbols over {:?}", total, n, alphabet));
     }
+    // (1b) long names (known and unknown) of every byte length up to 80, ASCII and multi-byte, so that any
+    // fixed-size handling of the name meets a character boundary in every position
+    if ctx.shard == 0 {
+        for unit in ["a", "é", "日", "😀"] {
+            for prefix in ["", "n", "nn", "nnn"] {
+                for k in 0..=(80 / unit.len()) {
+                    for tail in ["", "x", "&lt;"] {
+                        let s = format!("t&{}{};{}", prefix, unit.repeat(k), tail);
+                        if !run_string(ctx, &mut loc, &s) {
+                            return flush(ctx, &loc);
+                        }
+                        loc.long_names += 1;
+                    }
+                }
+            }
+        }
+    }
     // (2) every code point
     let top: u32 = if small { 0x3000 } else { 0x110020 };
     let step = if small { 37 } else { 1 };
@@ -394,6 +428,7 @@ fn flush(ctx: &mut Ctx, loc: &Local) {
     ctx.add("refun.ok", loc.refun_ok);
     ctx.add("refun.err", loc.refun_err);
     ctx.add("custom_resolver_runs", loc.custom);
+    ctx.add("long_entity_names", loc.long_names);
 }
 
 fn replay(case: &Value, _ctx: &mut Ctx) -> Option<String> {
